@@ -1,1 +1,822 @@
-pub fn run(_ctx: mc_core::Ctx) -> ! { mc_core::report::machinery_failure("todo") }
+//! C44 — UTxO RPC mapping preserves ledger content (v1alpha and v1beta).
+//! GRID: every block of test_data and of the immutable-DB chunks, every
+//! stand-alone `.tx`, mapped by both mappers with a no-op LedgerContext and
+//! compared with the refcbor view; plus generated Plutus data (integer
+//! alphabet over the full CBOR range in every head width, bignums, in every
+//! container position to depth 2) mapped directly and as the inline datum of
+//! an output of a Babbage and of a Conway block.
+
+use crate::c30::BlockAst;
+use crate::corpus::{self, RefOutput, RefTx};
+use crate::rewrite;
+use mc_core::blake2b::blake2b_256;
+use mc_core::refcbor::{self, Kind, Node};
+use mc_core::{catch, cov, json, Ctx, Level, Value};
+use pallas_codec::minicbor;
+use pallas_primitives::alonzo::PlutusData;
+use pallas_traverse::{MultiEraBlock, MultiEraTx};
+use pallas_utxorpc::{LedgerContext, TxoRef, UtxoMap};
+use rayon::prelude::*;
+use std::collections::{BTreeMap, BTreeSet};
+
+#[derive(Clone)]
+struct NoLedger;
+
+impl LedgerContext for NoLedger {
+    fn get_utxos(&self, _refs: &[TxoRef]) -> Option<UtxoMap> {
+        None
+    }
+    fn get_slot_timestamp(&self, _slot: u64) -> Option<u64> {
+        None
+    }
+}
+
+// ---------------------------------------------------------------------------
+// Version-neutral form of what the mappers return
+// ---------------------------------------------------------------------------
+
+#[derive(Clone, Debug, PartialEq)]
+enum NBig {
+    Absent,
+    Int(i64),
+    BigU(Vec<u8>),
+    BigN(Vec<u8>),
+}
+
+#[derive(Clone, Debug, PartialEq)]
+enum NPlutus {
+    Missing,
+    Constr(u32, u64, Vec<NPlutus>),
+    Map(Vec<(NPlutus, NPlutus)>),
+    Array(Vec<NPlutus>),
+    Big(NBig),
+    Bytes(Vec<u8>),
+}
+
+#[derive(Clone, Debug)]
+struct NDatum {
+    hash: Vec<u8>,
+    payload: Option<NPlutus>,
+    original_cbor: Vec<u8>,
+}
+
+#[derive(Clone, Debug)]
+struct NOut {
+    address: Vec<u8>,
+    coin: NBig,
+    assets: Vec<(Vec<u8>, Vec<u8>, NBig)>,
+    datum: Option<NDatum>,
+}
+
+#[derive(Clone, Debug)]
+struct NTx {
+    hash: Vec<u8>,
+    inputs: Vec<(Vec<u8>, u32)>,
+    outputs: Vec<NOut>,
+    collateral_return: Option<NOut>,
+    fee: NBig,
+    validity: Option<(u64, u64)>,
+    successful: bool,
+    witness_datums: Vec<NPlutus>,
+}
+
+struct NBlock {
+    hash: Vec<u8>,
+    txs: Vec<NTx>,
+}
+
+macro_rules! neutral {
+    ($modname:ident, $ver:ident, $asset_q:expr, $datum_cbor:expr) => {
+        mod $modname {
+            use super::*;
+            pub use pallas_utxorpc::$ver::spec::cardano as u5c;
+            pub type Mapper = pallas_utxorpc::$ver::Mapper<NoLedger>;
+
+            pub fn big(b: &Option<u5c::BigInt>) -> NBig {
+                match b.as_ref().and_then(|x| x.big_int.as_ref()) {
+                    None => NBig::Absent,
+                    Some(u5c::big_int::BigInt::Int(i)) => NBig::Int(*i),
+                    Some(u5c::big_int::BigInt::BigUInt(b)) => NBig::BigU(b.to_vec()),
+                    Some(u5c::big_int::BigInt::BigNInt(b)) => NBig::BigN(b.to_vec()),
+                }
+            }
+            pub fn plutus(p: &u5c::PlutusData) -> NPlutus {
+                use u5c::plutus_data::PlutusData as P;
+                match &p.plutus_data {
+                    None => NPlutus::Missing,
+                    Some(P::Constr(c)) => NPlutus::Constr(c.tag, c.any_constructor, c.fields.iter().map(plutus).collect()),
+                    Some(P::Map(m)) => NPlutus::Map(
+                        m.pairs
+                            .iter()
+                            .map(|kv| (kv.key.as_ref().map(plutus).unwrap_or(NPlutus::Missing), kv.value.as_ref().map(plutus).unwrap_or(NPlutus::Missing)))
+                            .collect(),
+                    ),
+                    Some(P::Array(a)) => NPlutus::Array(a.items.iter().map(plutus).collect()),
+                    Some(P::BigInt(b)) => NPlutus::Big(big(&Some(b.clone()))),
+                    Some(P::BoundedBytes(b)) => NPlutus::Bytes(b.to_vec()),
+                }
+            }
+            pub fn out(o: &u5c::TxOutput) -> NOut {
+                let asset_q: fn(&u5c::Asset) -> NBig = $asset_q;
+                let datum_cbor: fn(&u5c::Datum) -> Vec<u8> = $datum_cbor;
+                NOut {
+                    address: o.address.to_vec(),
+                    coin: big(&o.coin),
+                    assets: o.assets.iter().flat_map(|ma| ma.assets.iter().map(move |a| (ma.policy_id.to_vec(), a.name.to_vec(), asset_q(a)))).collect(),
+                    datum: o.datum.as_ref().map(|d| NDatum { hash: d.hash.to_vec(), payload: d.payload.as_ref().map(plutus), original_cbor: datum_cbor(d) }),
+                }
+            }
+            pub fn tx(t: &u5c::Tx) -> NTx {
+                NTx {
+                    hash: t.hash.to_vec(),
+                    inputs: t.inputs.iter().map(|i| (i.tx_hash.to_vec(), i.output_index)).collect(),
+                    outputs: t.outputs.iter().map(out).collect(),
+                    collateral_return: t.collateral.as_ref().and_then(|c| c.collateral_return.as_ref()).map(out),
+                    fee: big(&t.fee),
+                    validity: t.validity.as_ref().map(|v| (v.start, v.ttl)),
+                    successful: t.successful,
+                    witness_datums: t.witnesses.as_ref().map(|w| w.plutus_datums.iter().map(plutus).collect()).unwrap_or_default(),
+                }
+            }
+            pub fn block(b: &u5c::Block) -> NBlock {
+                NBlock {
+                    hash: b.header.as_ref().map(|h| h.hash.to_vec()).unwrap_or_default(),
+                    txs: b.body.as_ref().map(|x| x.tx.iter().map(tx).collect()).unwrap_or_default(),
+                }
+            }
+            pub fn map_block(b: &MultiEraBlock) -> NBlock {
+                block(&Mapper::new(NoLedger).map_block(b))
+            }
+            pub fn map_tx(t: &MultiEraTx) -> NTx {
+                tx(&Mapper::new(NoLedger).map_tx(t))
+            }
+            pub fn map_datum(d: &PlutusData) -> NPlutus {
+                plutus(&Mapper::new(NoLedger).map_plutus_datum(d))
+            }
+        }
+    };
+}
+
+neutral!(
+    alpha,
+    v1alpha,
+    |a| match &a.quantity {
+        Some(u5c::asset::Quantity::OutputCoin(b)) => big(&Some(b.clone())),
+        Some(u5c::asset::Quantity::MintCoin(b)) => big(&Some(b.clone())),
+        None => NBig::Absent,
+    },
+    |d| d.original_cbor.to_vec()
+);
+neutral!(beta, v1beta, |a| big(&a.quantity), |d| d.original_cbor.as_ref().map(|b| b.to_vec()).unwrap_or_default());
+
+#[derive(Clone, Copy, PartialEq, Eq, Debug)]
+enum Ver {
+    Alpha,
+    Beta,
+}
+
+impl Ver {
+    fn name(&self) -> &'static str {
+        match self {
+            Ver::Alpha => "v1alpha",
+            Ver::Beta => "v1beta",
+        }
+    }
+    fn map_block(&self, b: &MultiEraBlock) -> NBlock {
+        match self {
+            Ver::Alpha => alpha::map_block(b),
+            Ver::Beta => beta::map_block(b),
+        }
+    }
+    fn map_tx(&self, t: &MultiEraTx) -> NTx {
+        match self {
+            Ver::Alpha => alpha::map_tx(t),
+            Ver::Beta => beta::map_tx(t),
+        }
+    }
+    fn map_datum(&self, d: &PlutusData) -> NPlutus {
+        match self {
+            Ver::Alpha => alpha::map_datum(d),
+            Ver::Beta => beta::map_datum(d),
+        }
+    }
+}
+
+// ---------------------------------------------------------------------------
+// Integers: arbitrary size, as (negative?, n) with value = n or -1 - n
+// ---------------------------------------------------------------------------
+
+fn strip(b: &[u8]) -> Vec<u8> {
+    let i = b.iter().position(|x| *x != 0).unwrap_or(b.len());
+    b[i..].to_vec()
+}
+
+fn plus_one(b: &[u8]) -> Vec<u8> {
+    let mut v = b.to_vec();
+    for i in (0..v.len()).rev() {
+        if v[i] == 0xff {
+            v[i] = 0;
+        } else {
+            v[i] += 1;
+            return strip(&v);
+        }
+    }
+    v.insert(0, 1);
+    v
+}
+
+/// Exact integer: (negative, n) meaning n if !negative, -1 - n if negative;
+/// n big-endian without leading zeros.
+type Exact = (bool, Vec<u8>);
+
+fn exact_of_i128(v: i128) -> Exact {
+    if v >= 0 {
+        (false, strip(&(v as u128).to_be_bytes()))
+    } else {
+        (true, strip(&((-1 - v) as u128).to_be_bytes()))
+    }
+}
+
+fn fits_i64(e: &Exact) -> bool {
+    // non-negative: n <= 2^63-1; negative: n <= 2^63-1 (value >= -2^63)
+    e.1.len() < 8 || (e.1.len() == 8 && e.1[0] < 0x80)
+}
+
+fn show(e: &Exact) -> String {
+    format!("{}0x{}", if e.0 { "-1-" } else { "" }, if e.1.is_empty() { "00".into() } else { hex::encode(&e.1) })
+}
+
+// ---------------------------------------------------------------------------
+// Expected Plutus data, from the refcbor AST of the datum bytes
+// ---------------------------------------------------------------------------
+
+#[derive(Clone, Debug)]
+enum EPlutus {
+    Constr(u64, u64, Vec<EPlutus>),
+    Map(Vec<(EPlutus, EPlutus)>),
+    Array(Vec<EPlutus>),
+    /// value + source kind ("int", "biguint", "bignint")
+    Int(Exact, &'static str),
+    Bytes(Vec<u8>),
+}
+
+fn expected_plutus(n: &Node) -> Result<EPlutus, String> {
+    Ok(match &n.kind {
+        Kind::UInt(v, _) => EPlutus::Int(exact_of_i128(*v as i128), "int"),
+        Kind::NInt(v, _) => EPlutus::Int((true, strip(&v.to_be_bytes())), "int"),
+        Kind::Bytes(_, _) | Kind::BytesIndef(_) => EPlutus::Bytes(n.as_bytes().unwrap()),
+        Kind::Array(a, _) => EPlutus::Array(a.iter().map(expected_plutus).collect::<Result<_, _>>()?),
+        Kind::Map(m, _) => EPlutus::Map(m.iter().map(|(k, v)| Ok((expected_plutus(k)?, expected_plutus(v)?))).collect::<Result<_, String>>()?),
+        Kind::Tag(2, _, inner) => EPlutus::Int((false, strip(&inner.as_bytes().ok_or("tag 2 without bytes")?)), "biguint"),
+        Kind::Tag(3, _, inner) => EPlutus::Int((true, strip(&inner.as_bytes().ok_or("tag 3 without bytes")?)), "bignint"),
+        Kind::Tag(t, _, inner) if (121..=127).contains(t) || (1280..=1400).contains(t) => {
+            EPlutus::Constr(*t, 0, inner.as_array().ok_or("constr without array")?.iter().map(expected_plutus).collect::<Result<_, _>>()?)
+        }
+        Kind::Tag(102, _, inner) => {
+            let a = inner.as_array().ok_or("constr 102 without array")?;
+            if a.len() != 2 {
+                return Err("constr 102: not a pair".into());
+            }
+            let any = a[0].as_u64().ok_or("constr 102: constructor not a uint")?;
+            EPlutus::Constr(102, any, a[1].as_array().ok_or("constr 102: fields not an array")?.iter().map(expected_plutus).collect::<Result<_, _>>()?)
+        }
+        other => return Err(format!("not plutus data: {other:?}").chars().take(80).collect()),
+    })
+}
+
+struct Diag {
+    ints_checked: u64,
+    ints_outside_i64: u64,
+    small_in_big_form: u64,
+}
+
+/// Compare mapped Plutus data with the expectation. Problems are (fingerprint, text).
+fn cmp_plutus(e: &EPlutus, m: &NPlutus, path: &str, out: &mut Vec<(String, String)>, d: &mut Diag) {
+    match (e, m) {
+        (EPlutus::Int(val, kind), NPlutus::Big(b)) => {
+            d.ints_checked += 1;
+            if !fits_i64(val) {
+                d.ints_outside_i64 += 1;
+            }
+            let class = if *kind == "int" { if fits_i64(val) { "cbor-int-within-i64" } else { "cbor-int-outside-i64" } } else { *kind };
+            let exact = match b {
+                NBig::Absent => false,
+                NBig::Int(i) => exact_of_i128(*i as i128) == *val,
+                NBig::BigU(bytes) => !val.0 && strip(bytes) == val.1,
+                // either convention for the magnitude of a negative: n with value -1-n, or |value|
+                NBig::BigN(bytes) => val.0 && (strip(bytes) == val.1 || strip(bytes) == plus_one(&val.1)),
+            };
+            if !exact {
+                out.push((format!("plutus-int-not-exact:{class}"), format!("{path}: source integer {} ({kind}) is mapped to {b:?}", show(val))));
+            } else if fits_i64(val) && !matches!(b, NBig::Int(_)) {
+                d.small_in_big_form += 1;
+            }
+        }
+        (EPlutus::Bytes(x), NPlutus::Bytes(y)) => {
+            if x != y {
+                out.push(("plutus-bytes-differ".into(), format!("{path}: byte string differs")));
+            }
+        }
+        (EPlutus::Array(x), NPlutus::Array(y)) => {
+            if x.len() != y.len() {
+                out.push(("plutus-structure-differs".into(), format!("{path}: list of {} mapped to {} items", x.len(), y.len())));
+            }
+            for (i, (a, b)) in x.iter().zip(y.iter()).enumerate() {
+                cmp_plutus(a, b, &format!("{path}[{i}]"), out, d);
+            }
+        }
+        (EPlutus::Map(x), NPlutus::Map(y)) => {
+            if x.len() != y.len() {
+                out.push(("plutus-structure-differs".into(), format!("{path}: map of {} mapped to {} pairs", x.len(), y.len())));
+            }
+            for (i, ((ak, av), (bk, bv))) in x.iter().zip(y.iter()).enumerate() {
+                cmp_plutus(ak, bk, &format!("{path}.key{i}"), out, d);
+                cmp_plutus(av, bv, &format!("{path}.val{i}"), out, d);
+            }
+        }
+        (EPlutus::Constr(t, any, f), NPlutus::Constr(mt, many, mf)) => {
+            if *t != *mt as u64 || any != many {
+                out.push(("plutus-constr-tag-differs".into(), format!("{path}: constr tag {t} / constructor {any} mapped to {mt} / {many}")));
+            }
+            if f.len() != mf.len() {
+                out.push(("plutus-structure-differs".into(), format!("{path}: constr with {} fields mapped to {}", f.len(), mf.len())));
+            }
+            for (i, (a, b)) in f.iter().zip(mf.iter()).enumerate() {
+                cmp_plutus(a, b, &format!("{path}.f{i}"), out, d);
+            }
+        }
+        (e, m) => out.push(("plutus-structure-differs".into(), format!("{path}: {} mapped to {}", ekind(e), nkind(m)))),
+    }
+}
+
+fn ekind(e: &EPlutus) -> &'static str {
+    match e {
+        EPlutus::Constr(..) => "constr",
+        EPlutus::Map(_) => "map",
+        EPlutus::Array(_) => "list",
+        EPlutus::Int(..) => "integer",
+        EPlutus::Bytes(_) => "bytes",
+    }
+}
+
+fn nkind(e: &NPlutus) -> &'static str {
+    match e {
+        NPlutus::Missing => "nothing",
+        NPlutus::Constr(..) => "constr",
+        NPlutus::Map(_) => "map",
+        NPlutus::Array(_) => "list",
+        NPlutus::Big(_) => "integer",
+        NPlutus::Bytes(_) => "bytes",
+    }
+}
+
+fn cmp_datum_bytes(raw: &[u8], m: &NPlutus, path: &str, out: &mut Vec<(String, String)>, d: &mut Diag) {
+    match refcbor::parse_one(raw).map_err(|e| format!("{e:?}")).and_then(|n| expected_plutus(&n)) {
+        Ok(e) => cmp_plutus(&e, m, path, out, d),
+        Err(e) => out.push(("reference-cannot-read-datum".into(), format!("{path}: {e}"))),
+    }
+}
+
+fn big_is_u64(b: &NBig, v: u64) -> bool {
+    match b {
+        NBig::Absent => false,
+        NBig::Int(i) => *i >= 0 && *i as u64 == v,
+        NBig::BigU(bytes) => strip(bytes) == strip(&v.to_be_bytes()),
+        NBig::BigN(_) => false,
+    }
+}
+
+fn cmp_output(ro: &RefOutput, address_raw: &[u8], mo: &NOut, rt: &RefTx, path: &str, out: &mut Vec<(String, String)>, d: &mut Diag) {
+    if mo.address != address_raw {
+        out.push(("output-address-bytes-differ".into(), format!("{path}: address {} mapped to {}", hex::encode(address_raw), hex::encode(&mo.address))));
+    }
+    if !big_is_u64(&mo.coin, ro.coin) {
+        out.push(("output-coin-differs".into(), format!("{path}: coin {} mapped to {:?}", ro.coin, mo.coin)));
+    }
+    let mut ra: Vec<(Vec<u8>, Vec<u8>, u64)> = ro.assets.clone();
+    ra.sort();
+    let mut ok = ra.len() == mo.assets.len();
+    if ok {
+        let mut ma = mo.assets.clone();
+        ma.sort_by(|a, b| (&a.0, &a.1).cmp(&(&b.0, &b.1)));
+        for (r, m) in ra.iter().zip(ma.iter()) {
+            if r.0 != m.0 || r.1 != m.1 || !big_is_u64(&m.2, r.2) {
+                ok = false;
+            }
+        }
+    }
+    if !ok {
+        out.push(("output-assets-differ".into(), format!("{path}: {} assets in the output, {} mapped (policy / name / quantity differ)", ra.len(), mo.assets.len())));
+    }
+    let empty = NDatum { hash: vec![], payload: None, original_cbor: vec![] };
+    let md = mo.datum.as_ref().unwrap_or(&empty);
+    match (&ro.datum_hash, &ro.inline_datum) {
+        (Some(h), _) => {
+            if &md.hash != h {
+                out.push(("datum-hash-differs".into(), format!("{path}: datum hash {} mapped to {}", hex::encode(h), hex::encode(&md.hash))));
+            }
+            if let Some(p) = &md.payload {
+                match rt.witness_datums.iter().find(|w| &blake2b_256(w)[..] == &h[..]) {
+                    Some(w) => cmp_datum_bytes(w, p, &format!("{path}.datum(resolved)"), out, d),
+                    None => out.push(("datum-payload-without-source".into(), format!("{path}: payload given for datum hash {} but no witness datum hashes to it", hex::encode(h)))),
+                }
+            }
+        }
+        (None, Some(raw)) => {
+            if md.original_cbor != *raw {
+                out.push(("inline-datum-cbor-differs".into(), format!("{path}: inline datum bytes differ ({} vs {} bytes)", raw.len(), md.original_cbor.len())));
+            }
+            if md.hash != blake2b_256(raw) {
+                out.push(("inline-datum-hash-differs".into(), format!("{path}: hash field {} is not blake2b-256 of the inline datum", hex::encode(&md.hash))));
+            }
+            match &md.payload {
+                Some(p) => cmp_datum_bytes(raw, p, &format!("{path}.datum"), out, d),
+                None => out.push(("inline-datum-payload-missing".into(), format!("{path}: inline datum has no payload"))),
+            }
+        }
+        (None, None) => {
+            if !md.hash.is_empty() || md.payload.is_some() {
+                out.push(("datum-invented".into(), format!("{path}: output without datum mapped with one")));
+            }
+        }
+    }
+}
+
+/// Raw address bytes as the mapper should carry them: Shelley+ = the address
+/// byte string; Byron = the CBOR item `[#6.24(payload), crc]`.
+fn address_raw(ro: &RefOutput) -> Vec<u8> {
+    match ro.byron_crc {
+        None => ro.address.clone(),
+        Some(crc) => Node::array(vec![Node::tag(24, Node::bytes(&ro.address)), Node::uint(crc)]).to_vec(),
+    }
+}
+
+fn cmp_tx(rt: &RefTx, byron: bool, m: &NTx, path: &str, out: &mut Vec<(String, String)>, d: &mut Diag) {
+    if m.hash != rt.id {
+        out.push(("tx-hash-differs".into(), format!("{path}: hash {} but blake2b-256(body) = {}", hex::encode(&m.hash), hex::encode(rt.id))));
+    }
+    let ri: BTreeSet<(Vec<u8>, u64)> = rt.inputs.iter().map(|i| (i.tx.clone(), i.index)).collect();
+    let mi: BTreeSet<(Vec<u8>, u64)> = m.inputs.iter().map(|i| (i.0.clone(), i.1 as u64)).collect();
+    if ri != mi {
+        out.push(("tx-inputs-differ".into(), format!("{path}: {} distinct inputs in the body, {} mapped", ri.len(), mi.len())));
+    }
+    if rt.outputs.len() != m.outputs.len() {
+        out.push(("tx-output-count-differs".into(), format!("{path}: {} outputs, {} mapped", rt.outputs.len(), m.outputs.len())));
+    }
+    for (j, (ro, mo)) in rt.outputs.iter().zip(m.outputs.iter()).enumerate() {
+        cmp_output(ro, &address_raw(ro), mo, rt, &format!("{path} output {j}"), out, d);
+    }
+    match (&rt.collateral_return, &m.collateral_return) {
+        (Some(ro), Some(mo)) => cmp_output(ro, &address_raw(ro), mo, rt, &format!("{path} collateral return"), out, d),
+        (None, None) => {}
+        (a, _) => out.push(("collateral-return-presence-differs".into(), format!("{path}: collateral return {} in the body", if a.is_some() { "present" } else { "absent" }))),
+    }
+    if !byron {
+        if let Some(f) = rt.fee {
+            if !big_is_u64(&m.fee, f) {
+                out.push(("tx-fee-differs".into(), format!("{path}: fee {f} mapped to {:?}", m.fee)));
+            }
+        }
+    }
+    if m.successful != rt.valid {
+        out.push(("tx-validity-flag-differs".into(), format!("{path}: valid = {} mapped to successful = {}", rt.valid, m.successful)));
+    }
+    let (s, t) = m.validity.unwrap_or((0, 0));
+    if s != rt.validity_start.unwrap_or(0) || t != rt.ttl.unwrap_or(0) {
+        out.push(("tx-validity-interval-differs".into(), format!("{path}: interval start {:?} ttl {:?} mapped to ({s}, {t})", rt.validity_start, rt.ttl)));
+    }
+    if rt.witness_datums.len() != m.witness_datums.len() {
+        out.push(("witness-datum-count-differs".into(), format!("{path}: {} witness datums, {} mapped", rt.witness_datums.len(), m.witness_datums.len())));
+    }
+    for (j, (raw, mp)) in rt.witness_datums.iter().zip(m.witness_datums.iter()).enumerate() {
+        cmp_datum_bytes(raw, mp, &format!("{path} witness datum {j}"), out, d);
+    }
+}
+
+/// Block hash by the reference: blake2b-256 of the header (Byron: of
+/// `[0|1, header]`).
+fn ref_block_hash(bytes: &[u8]) -> Option<Vec<u8>> {
+    let root = refcbor::parse_one(bytes).ok()?;
+    let w = root.as_array()?;
+    let tag = w[0].as_u64()?;
+    let header = w[1].as_array()?.first()?.span(bytes);
+    Some(match tag {
+        0 | 1 => {
+            let mut v = vec![0x82, tag as u8];
+            v.extend_from_slice(header);
+            blake2b_256(&v).to_vec()
+        }
+        _ => blake2b_256(header).to_vec(),
+    })
+}
+
+struct Outcome {
+    problems: Vec<(String, String)>,
+    rejected: bool,
+    txs: u64,
+    diag: Diag,
+}
+
+fn run_block(bytes: &[u8], ver: Ver, label: &str) -> Outcome {
+    let mut o = Outcome { problems: vec![], rejected: false, txs: 0, diag: Diag { ints_checked: 0, ints_outside_i64: 0, small_in_big_form: 0 } };
+    let rb = match corpus::ref_block(bytes) {
+        Ok(r) => r,
+        Err(e) => mc_core::report::machinery_failure(&format!("{label}: reference cannot view the block: {e}")),
+    };
+    let r = catch(|| MultiEraBlock::decode(bytes).ok().map(|b| ver.map_block(&b)));
+    match r {
+        Err(p) => o.problems.push((p.site(), format!("{label}: panicked: {} at {}", p.message, p.location))),
+        Ok(None) => o.rejected = true,
+        Ok(Some(nb)) => {
+            if Some(&nb.hash) != ref_block_hash(bytes).as_ref() {
+                o.problems.push(("block-hash-differs".into(), format!("{label}: header hash {} is not the blake2b-256 of the header", hex::encode(&nb.hash))));
+            }
+            if nb.txs.len() != rb.txs.len() {
+                o.problems.push(("block-tx-count-differs".into(), format!("{label}: {} bodies, {} mapped", rb.txs.len(), nb.txs.len())));
+            }
+            for (i, (rt, mt)) in rb.txs.iter().zip(nb.txs.iter()).enumerate() {
+                cmp_tx(rt, rb.era_tag <= 1, mt, &format!("{label} tx {i}"), &mut o.problems, &mut o.diag);
+            }
+            o.txs = nb.txs.len() as u64;
+        }
+    }
+    o
+}
+
+// ---------------------------------------------------------------------------
+// Generated Plutus data
+// ---------------------------------------------------------------------------
+
+fn leaves() -> Vec<(String, Node)> {
+    let mut v: Vec<(String, Node)> = vec![];
+    let two63: i128 = 1 << 63;
+    let two64: i128 = 1 << 64;
+    let ints: [i128; 16] = [-two64, -two63 - 1, -two63, -two63 + 1, -(1 << 32), -25, -24, -1, 0, 1, 23, 24, 1 << 32, two63 - 1, two63, two64 - 1];
+    for i in ints {
+        let n = if i >= 0 { i as u64 } else { (-1 - i) as u64 };
+        for w in [0u8, 1, 2, 4, 8] {
+            if refcbor::width_fits(n, w) {
+                let node = if i >= 0 { Node::uint_w(n, w) } else { Node::new(Kind::NInt(n, w)) };
+                v.push((format!("int {i} (head width {w})"), node));
+            }
+        }
+    }
+    let mags: Vec<(&str, Vec<u8>)> = vec![
+        ("empty", vec![]),
+        ("00", vec![0]),
+        ("01", vec![1]),
+        ("ff", vec![0xff]),
+        ("2^63-1", (u64::MAX >> 1).to_be_bytes().to_vec()),
+        ("2^63", (1u64 << 63).to_be_bytes().to_vec()),
+        ("2^64-1", u64::MAX.to_be_bytes().to_vec()),
+        ("2^64", vec![1, 0, 0, 0, 0, 0, 0, 0, 0]),
+        ("00 2^64-1", vec![0, 0xff, 0xff, 0xff, 0xff, 0xff, 0xff, 0xff, 0xff, 0xff]),
+        ("2^96-1", vec![0xff; 12]),
+        ("64 bytes", vec![0xa5; 64]),
+    ];
+    for (name, m) in &mags {
+        v.push((format!("tag 2 {name}"), Node::tag(2, Node::bytes(m))));
+        v.push((format!("tag 3 {name}"), Node::tag(3, Node::bytes(m))));
+    }
+    v.push(("tag 2 chunked 2^64".into(), Node::tag(2, Node::new(Kind::BytesIndef(vec![(vec![1, 0, 0, 0], 0), (vec![0, 0, 0, 0, 0], 0)])))));
+    v.push(("bytes".into(), Node::bytes(b"\x00\x01")));
+    v
+}
+
+fn contexts() -> Vec<(String, Box<dyn Fn(Node) -> Node + Sync + Send>)> {
+    let w: Vec<(&str, fn(Node) -> Node)> = vec![
+        ("list[x]", |x| Node::array(vec![x])),
+        ("list[0,x] indefinite", |x| Node::array_indef(vec![Node::uint(0), x])),
+        ("map{x:0}", |x| Node::map(vec![(x, Node::uint(0))])),
+        ("map{0:x}", |x| Node::map(vec![(Node::uint(0), x)])),
+        ("constr121[x]", |x| Node::tag(121, Node::array(vec![x]))),
+        ("constr1280[x]", |x| Node::tag(1280, Node::array_indef(vec![x]))),
+        ("constr102(7)[x]", |x| Node::tag(102, Node::array(vec![Node::uint(7), Node::array(vec![x])]))),
+    ];
+    let mut out: Vec<(String, Box<dyn Fn(Node) -> Node + Sync + Send>)> = vec![("top".into(), Box::new(|x| x))];
+    for (n, f) in w.iter() {
+        let f = *f;
+        out.push((n.to_string(), Box::new(move |x| f(x))));
+    }
+    for (n1, f1) in w.iter() {
+        for (n2, f2) in w.iter() {
+            let (f1, f2) = (*f1, *f2);
+            out.push((format!("{n1} in {n2}"), Box::new(move |x| f2(f1(x)))));
+        }
+    }
+    out
+}
+
+/// Block whose first transaction's first output is the map-form output
+/// `{0: address, 1: coin, 2: [1, #6.24(datum)]}`.
+fn embed_in_block(base: &[u8], datum: &[u8]) -> Option<Vec<u8>> {
+    let mut ast = BlockAst::parse(base)?;
+    let items = ast.block_items();
+    let body = items[1].as_array_mut()?.get_mut(0)?;
+    let outs = rewrite::inner_array_mut(rewrite::map_get_mut(body, 1)?)?;
+    let first = outs.as_array_mut()?.get_mut(0)?;
+    let address = match &first.kind {
+        Kind::Array(a, _) => a.first()?.clone(),
+        Kind::Map(_, _) => first.map_get(0)?.clone(),
+        _ => return None,
+    };
+    *first = Node::map(vec![
+        (Node::uint(0), address),
+        (Node::uint(1), Node::uint(1_234_567)),
+        (Node::uint(2), Node::array(vec![Node::uint(1), Node::tag(24, Node::bytes(datum))])),
+    ]);
+    Some(ast.to_vec())
+}
+
+pub fn run(ctx: Ctx) -> ! {
+    let vers = [Ver::Alpha, Ver::Beta];
+    let mut evals = 0u64;
+    let mut nontrivial: BTreeSet<String> = BTreeSet::new();
+    let mut samples: Vec<Value> = vec![];
+    let mut diag = Diag { ints_checked: 0, ints_outside_i64: 0, small_in_big_form: 0 };
+    let mut rejected_real: BTreeSet<String> = BTreeSet::new();
+
+    // ---- real blocks
+    let mut blocks = corpus::block_files();
+    blocks.extend(corpus::chunk_blocks());
+    let outs: Vec<Vec<Outcome>> = blocks.par_iter().map(|a| vers.iter().map(|v| run_block(&a.bytes, *v, &format!("{} {}", v.name(), a.name))).collect()).collect();
+    let mut real_txs = 0u64;
+    for (a, os) in blocks.iter().zip(outs.iter()) {
+        for (v, o) in vers.iter().zip(os.iter()) {
+            evals += 1;
+            if o.rejected {
+                rejected_real.insert(a.name.clone());
+                continue;
+            }
+            for (fp, what) in &o.problems {
+                ctx.violation(fp.clone(), what.clone(), json!({"block": a.name, "version": v.name()}));
+            }
+            real_txs += o.txs;
+            diag.ints_checked += o.diag.ints_checked;
+            diag.ints_outside_i64 += o.diag.ints_outside_i64;
+            diag.small_in_big_form += o.diag.small_in_big_form;
+            nontrivial.insert(format!("{}|{}", v.name(), a.name));
+        }
+    }
+    let real_ints = diag.ints_checked;
+
+    // ---- stand-alone transactions
+    for a in corpus::tx_files() {
+        let (shape, rt) = match corpus::ref_tx(&a.bytes) {
+            Ok(x) => x,
+            Err(e) => mc_core::report::machinery_failure(&format!("reference cannot view {}: {e}", a.name)),
+        };
+        for v in vers {
+            evals += 1;
+            let label = format!("{} {}", v.name(), a.name);
+            match catch(|| MultiEraTx::decode(&a.bytes).ok().map(|t| (v.map_tx(&t), t.era()))) {
+                Err(p) => ctx.violation(p.site(), format!("{label}: panicked: {} at {}", p.message, p.location), json!({"tx": a.name, "version": v.name()})),
+                Ok(None) => {
+                    rejected_real.insert(a.name.clone());
+                }
+                Ok(Some((nt, era))) => {
+                    let mut problems = vec![];
+                    // a stand-alone tx carries no era: a collateral return is only
+                    // visible when pallas reads the bytes as Babbage or later
+                    let mut rt = rt.clone();
+                    if era < pallas_traverse::Era::Babbage {
+                        rt.collateral_return = None;
+                    }
+                    cmp_tx(&rt, shape == corpus::TxShape::Byron, &nt, &label, &mut problems, &mut diag);
+                    for (fp, what) in problems {
+                        ctx.violation(fp, what, json!({"tx": a.name, "version": v.name(), "tx_hex": hex::encode(&a.bytes)}));
+                    }
+                    real_txs += 1;
+                    nontrivial.insert(format!("{}|{}", v.name(), a.name));
+                }
+            }
+        }
+    }
+    for r in &rejected_real {
+        ctx.note(format!("{r} is rejected by the pallas decoder in the default feature set (nothing to map)"));
+    }
+    if rejected_real.len() > 6 {
+        mc_core::report::machinery_failure(&format!("too many real artefacts rejected: {rejected_real:?}"));
+    }
+
+    // ---- generated Plutus data
+    let find_base = |tag: u64| -> Vec<u8> {
+        for a in blocks.iter() {
+            if a.name.contains('#') {
+                continue;
+            }
+            if let Ok(rb) = corpus::ref_block(&a.bytes) {
+                if rb.era_tag == tag && !rb.txs.is_empty() && MultiEraBlock::decode(&a.bytes).is_ok() {
+                    if let Some(b) = embed_in_block(&a.bytes, &[0x00]) {
+                        if MultiEraBlock::decode(&b).is_ok() {
+                            return a.bytes.clone();
+                        }
+                    }
+                }
+            }
+        }
+        mc_core::report::machinery_failure(&format!("no base block for era tag {tag}"))
+    };
+    let bases = [("babbage-block", find_base(6)), ("conway-block", find_base(7))];
+    let leaves = leaves();
+    let ctxs = contexts();
+    let cases: Vec<(usize, usize)> = (0..leaves.len()).flat_map(|l| (0..ctxs.len()).map(move |c| (l, c))).collect();
+    struct GenRes {
+        datum: Vec<u8>,
+        direct_accepted: bool,
+        results: Vec<(String, &'static str, Vec<(String, String)>, bool)>, // path, version, problems, accepted
+        diag: Diag,
+    }
+    let gen: Vec<GenRes> = cases
+        .par_iter()
+        .map(|(l, c)| {
+            let datum = (ctxs[*c].1)(leaves[*l].1.clone()).to_vec();
+            let mut g = GenRes { datum: datum.clone(), direct_accepted: false, results: vec![], diag: Diag { ints_checked: 0, ints_outside_i64: 0, small_in_big_form: 0 } };
+            let label = format!("{} @ {}", leaves[*l].0, ctxs[*c].0);
+            for v in vers {
+                // direct
+                let mut problems = vec![];
+                let accepted = match catch(|| minicbor::decode::<PlutusData>(&datum).ok().map(|d| v.map_datum(&d))) {
+                    Err(p) => {
+                        problems.push((p.site(), format!("{} map_plutus_datum({label}): panicked: {} at {}", v.name(), p.message, p.location)));
+                        true
+                    }
+                    Ok(None) => false,
+                    Ok(Some(m)) => {
+                        cmp_datum_bytes(&datum, &m, &format!("{} map_plutus_datum({label})", v.name()), &mut problems, &mut g.diag);
+                        true
+                    }
+                };
+                g.direct_accepted |= accepted;
+                g.results.push(("direct".into(), v.name(), problems, accepted));
+                // embedded
+                for (bname, base) in bases.iter() {
+                    let Some(bytes) = embed_in_block(base, &datum) else {
+                        mc_core::report::machinery_failure("cannot embed datum");
+                    };
+                    let o = run_block(&bytes, v, &format!("{} map_block({bname} with inline datum {label})", v.name()));
+                    g.diag.ints_checked += o.diag.ints_checked;
+                    g.diag.ints_outside_i64 += o.diag.ints_outside_i64;
+                    g.diag.small_in_big_form += o.diag.small_in_big_form;
+                    g.results.push((bname.to_string(), v.name(), o.problems, !o.rejected));
+                }
+            }
+            g
+        })
+        .collect();
+    let mut gen_accepted = 0u64;
+    let mut gen_rejected = 0u64;
+    let mut by_path: BTreeMap<String, u64> = BTreeMap::new();
+    for (g, (l, c)) in gen.iter().zip(cases.iter()) {
+        for (path, ver, problems, accepted) in &g.results {
+            evals += 1;
+            if !*accepted {
+                gen_rejected += 1;
+                continue;
+            }
+            gen_accepted += 1;
+            *by_path.entry(format!("{ver}/{path}")).or_default() += 1;
+            for (fp, what) in problems {
+                ctx.violation(fp.clone(), what.clone(), json!({"datum_hex": hex::encode(&g.datum), "leaf": leaves[*l].0, "context": ctxs[*c].0, "path": path, "version": ver}));
+            }
+            nontrivial.insert(format!("gen|{ver}|{path}|{}", hex::encode(&g.datum)));
+        }
+        diag.ints_checked += g.diag.ints_checked;
+        diag.ints_outside_i64 += g.diag.ints_outside_i64;
+        diag.small_in_big_form += g.diag.small_in_big_form;
+        if samples.len() < 6 && g.direct_accepted && (l * 31 + c) % 211 == 0 {
+            samples.push(json!({"leaf": leaves[*l].0, "context": ctxs[*c].0, "datum_hex": hex::encode(&g.datum)}));
+        }
+    }
+    if gen_accepted == 0 || diag.ints_outside_i64 == 0 || by_path.len() < 6 {
+        mc_core::report::machinery_failure(&format!("vacuous generation: accepted {gen_accepted}, integers outside i64 seen {}, paths {by_path:?}", diag.ints_outside_i64));
+    }
+    samples.push(json!({"real_blocks": blocks.len(), "real_txs_mapped_x_versions": real_txs}));
+    let cov = cov! {
+        "evaluations" => evals,
+        "distinct_nontrivial" => nontrivial.len(),
+        "rule" => "evaluation = one artefact mapped by one mapper version (map_block of a real or generated block, map_tx of a stand-alone tx, map_plutus_datum of a generated datum) and compared field by field with the refcbor view; non-trivial = distinct (version, artefact) that pallas decoded and that was fully compared",
+        "samples" => samples,
+        "real_txs_mapped_x_versions" => real_txs,
+        "plutus_integers_compared" => diag.ints_checked,
+        "plutus_integers_compared_in_real_data" => real_ints,
+        "plutus_integers_outside_i64_compared" => diag.ints_outside_i64,
+        "diagnostic_small_values_kept_in_big_form" => diag.small_in_big_form,
+        "generated_leaves" => leaves.len(),
+        "generated_contexts" => ctxs.len(),
+        "generated_accepted_by_path" => by_path,
+        "generated_rejected_by_decode" => gen_rejected,
+        "real_rejected_by_decode" => rejected_real.iter().cloned().collect::<Vec<_>>(),
+        "exhaustive" => true,
+    };
+    ctx.finish(
+        Level::Exploration,
+        cov,
+        &[
+            "no-op LedgerContext (no resolved inputs, no timestamps); compared fields: tx hash, input set, outputs (address bytes, coin, assets as a multiset of policy/name/quantity), collateral return, fee (Shelley onward), validity flag and interval, datum hash / inline datum bytes / datum structure, witness-set datums, block header hash",
+            "an integer is exact when the mapped Int / BigUInt / BigNInt denotes the source value (either magnitude convention accepted for BigNInt); a value within i64 that the source spelled as a bignum and the mapper keeps as big-integer bytes is only counted as a diagnostic",
+            "inputs are compared as a set (the mappers emit the sorted, de-duplicated input set)",
+            "integer alphabet = boundary values in every fitting head width plus bignum byte strings; container positions to depth 2",
+        ],
+    )
+}
